@@ -530,6 +530,22 @@ fn add_coincidences(rng: &mut Rng, lib: &mut LefLibrary) {
             m.site = Some(sn.clone());
         }
         fix_layers(rng, &mut m.obs);
+        // DENSITY: neighbouring LAYER sections on the same layer (one section per window row is how fill tools write them)
+        if let Some(d) = m.density.as_mut() {
+            for sec in d.iter_mut() {
+                if rng.chance(2, 3) {
+                    sec.layer_name = pool_layer.clone();
+                }
+            }
+            if !d.is_empty() && rng.chance(1, 2) {
+                let k = rng.usize(d.len());
+                let mut c = d[k].clone();
+                if rng.bool() {
+                    c.geometries.truncate(1);
+                }
+                d.insert(k, c);
+            }
+        }
         let mname = m.name.clone();
         for pin in m.pins.iter_mut() {
             if rng.chance(1, 8) {
